@@ -463,6 +463,10 @@ def c18_cases():
         dd = ord_skips_def(list(perm))
         srcs2.append(corpus.render_enum(dd, derive_line=''))
     cases.append(('logos-skips', srcs2))
+    # the same literal skipped twice with different priorities, and with equal priorities (a tie in every order)
+    for nm, fac in SKIP_CLASSES.items():
+        if nm != 'logos-skips':
+            cases.append((nm, [corpus.render_enum(fac(list(perm)), derive_line='') for perm in itertools.permutations(range(3))]))
     # generic enum: type substitution and source lifetime in either order
     gitems = ["lifetime = 'a", "type T = &'a str", 'extras = u8', 'skip " +"']
     cases.append(('logos-items-generic', [
@@ -520,6 +524,21 @@ def ord_skips_def(order=None, ident='ord_skips'):
                variants=[Var('Doc', [R('///[a-z/]*', prio=6)]), Var('Z', [T('zz')])], combined_logos_attr=True, logos_items_order=order)
 
 
+def ord_skips_dup_def(order=None, ident='ord_skips_dup'):
+    """one literal skipped twice with different priorities; the token pattern sits between the two"""
+    return Def(ident, skips=[T('-', prio=5), T('-'), R(' +')], variants=[Var('Ch', [R('[-a-z]', prio=3)])],
+               combined_logos_attr=True, logos_items_order=order)
+
+
+def ord_skips_tie_def(order=None, ident='ord_skips_tie'):
+    """one literal skipped twice with the same priority: a tie whatever the order"""
+    return Def(ident, skips=[T('a'), T('a'), T('b')], variants=[Var('Z', [T('zz')])], combined_logos_attr=True,
+               logos_items_order=order, expect='reject')
+
+
+SKIP_CLASSES = {'logos-skips': ord_skips_def, 'logos-skips-dup': ord_skips_dup_def, 'logos-skips-tie': ord_skips_tie_def}
+
+
 def ord_items_def(order=None, ident='ord_items'):
     return Def(ident, utf8=False, error='E', prelude='#[derive(Debug, PartialEq, Clone, Default)]\npub struct E;',
                subs=[('d', '[0-9]'), ('dd', '(?&d)(?&d)')], skips=[R(' +'), R('#+', prio=3)],
@@ -561,15 +580,16 @@ def c18(tier, seed):
             rc = max(rc, known_or_violation('C18', role, f'{name}: accepted in one argument order, rejected in another: '
                                             f'{srcs[rej].splitlines()[0][:120]} -> {rs[rej]["errors"][:1]}', info, ev,
                                             'ord-' + hashlib.sha1(name.encode()).hexdigest()[:8]))
-        elif statuses == {'accepted'} and name == 'logos-skips':
+        elif statuses == {'accepted'} and name in SKIP_CLASSES:
             # overlapping skips: every order must give an equivalent lexer -> all orders go through the lexing obligations
-            rep_defs = [ord_skips_def(list(p), f'ord_skips_{i}') for i, p in enumerate(itertools.permutations(range(3)))]
+            rep_defs = [SKIP_CLASSES[name](list(p), f'ord_{name.split("-", 1)[1].replace("-", "_")}_{i}')
+                        for i, p in enumerate(itertools.permutations(range(3)))]
             from .props import lex_family, tier_params
             tp = tier_params(tier)
             tp['cfgs'] = ['tc-unsafe']
             tp['starts'] = (0,)
             hook = {}
-            rc = max(rc, lex_family('C18', tier, seed, relevant={'C01', 'C02', 'C03'}, select=lambda ds: rep_defs, name='lexskips',
+            rc = max(rc, lex_family('C18', tier, seed, relevant={'C01', 'C02', 'C03'}, select=lambda ds: rep_defs, name='lex' + name.split('-', 1)[1].replace('-', ''),
                                     evidence_hook=hook, **tp))
             summary[-1]['orders_checked_by_solver'] = len(rep_defs)
         elif statuses == {'accepted'} and len(hashes) > 1 and name == 'logos-items':
